@@ -5,7 +5,13 @@ import subprocess
 from common import build_harness, log
 
 
-OP_LIMIT = 240      # seconds ONE op may take before the process is stopped (every real op takes milliseconds to a few seconds)
+OP_LIMIT = 150      # seconds ONE op may take before the process is stopped (every real op takes milliseconds to a few seconds)
+HANGS = [0]         # confirmed hangs of this run: the first one is given every benefit of the doubt (a busy machine), the later ones
+                    # are judged faster — a tree that hangs on one input usually hangs on many, and the verdict is already there
+
+
+def op_limit():
+    return OP_LIMIT if HANGS[0] == 0 else 40 if HANGS[0] < 3 else 12
 
 
 def _run_watched(hbin, payload, batch_timeout):
@@ -39,7 +45,7 @@ def _run_watched(hbin, payload, batch_timeout):
         while p.poll() is None:
             time.sleep(0.2)
             now = time.time()
-            if now - last[0] > OP_LIMIT or now - t0 > batch_timeout:
+            if now - last[0] > op_limit() or now - t0 > batch_timeout:
                 timed_out = True
                 p.kill()
                 break
@@ -90,7 +96,7 @@ def run_ops(reqs, timeout=None):
             # the BATCH ran out of time (a loaded machine, a long batch): that says nothing about the op that happened to be
             # running.  It is a hang only if it does not finish on its own either.
             try:
-                q = subprocess.run([hbin], input=json.dumps(reqs[begun]) + "\n", capture_output=True, text=True, timeout=300,
+                q = subprocess.run([hbin], input=json.dumps(reqs[begun]) + "\n", capture_output=True, text=True, timeout=2 * op_limit(),
                                    env={"GOMEMLIMIT": "8GiB", "GOTRACEBACK": "single"})
                 alone = None
                 for line in q.stdout.split("\n"):
@@ -108,7 +114,7 @@ def run_ops(reqs, timeout=None):
                     kind = "stack" if "stack overflow" in q.stderr or "goroutine stack exceeds" in q.stderr else "fatal"
                     stderr = q.stderr
             except subprocess.TimeoutExpired:
-                pass
+                HANGS[0] += 1
         out[begun] = {"fatal": kind, "stderr": stderr[:300]}
         start = begun + 1
     return out
